@@ -2,7 +2,7 @@
    a later change of a statement there makes this file fail). *)
 From Coq Require Import List ZArith String Bool Arith.
 Import ListNotations.
-From NV Require Import Delayed.Model Delayed.Spec Delayed.Tracked Delayed.Rel Delayed.Main Delayed.Refuted Delayed.ReachTable Delayed.MergeTracked Props.C08.
+From NV Require Import Delayed.Model Delayed.Spec Delayed.Tracked Delayed.Rel Delayed.Main Delayed.Refuted Delayed.ReachTable Delayed.MergeTracked Delayed.Stack Props.C08.
 
 Check (C08_pending_tracked_at : forall es p i,
   prim_array_at es p i =
@@ -95,3 +95,36 @@ Check (C08_concat_label_refuted : exists (l : lit),
 Check (C08_reach_table_correct : forall o zs p b m,
   reach_table o (List.length zs) p = Some b ->
   reaches (S (S (S (S m)))) (KArr (nums zs)) o [p] = b).
+Check (C08_stack_conj : forall n p t, forallb flat (map snd p) = true ->
+  eval n (tctrs p t) =
+  match eval n t with
+  | Err e => Err e
+  | Ok v => match first_reject v p with None => Ok v | Some b => Err (blame b) end
+  end).
+Check (C08_stack_accepts_iff_all : forall n p t v, forallb flat (map snd p) = true ->
+  eval n t = Ok v ->
+  (eval n (tctrs p t) = Ok v <-> forallb (fun c => accepts c v) (map snd p) = true)).
+Check (C08_dedup_unobservable : forall n p q t,
+  forallb flat (map snd p) = true -> forallb flat (map snd q) = true ->
+  (forall c, In c (map snd p) <-> In c (map snd q)) ->
+  res_sim (eval n (tctrs p t)) (eval n (tctrs q t))).
+Check (C08_push_dedup_unobservable : forall n p b c t,
+  forallb flat (map snd p) = true -> In c (map snd p) ->
+  res_sim (eval n (tctrs (p ++ [(b, c)]) t)) (eval n (tctrs p t))).
+Check (C08_drop_distinct_refuted : exists n p b c t, forallb flat (map snd (p ++ [(b, c)])) = true /\
+    ~ res_sim (eval n (tctrs (p ++ [(b, c)]) t)) (eval n (tctrs p t))).
+Check (C08_stack_set_equiv : forall n xs cs1 cs2 o,
+  supported o -> forallb atom_plain xs = true ->
+  forallb flat cs1 = true -> forallb flat cs2 = true ->
+  (forall c, In c cs1 <-> In c cs2) ->
+  res_sim (run_stack n (KArr xs) (map CArr cs1) o) (run_stack n (KArr xs) (map CArr cs2) o)).
+Check (C08_reached_blames_stack : forall n xs cs o i a v,
+  supported o -> forallb flat cs = true ->
+  others_accepted cs i xs = true ->
+  atom_val a = Some v -> forallb (fun c => accepts c v) cs = false ->
+  reaches n (KArr xs) o [i] = true ->
+  exists e, run_stack n (plug (KArr xs) [i] a) (map CArr cs) o = Err e /\ is_blame e = true).
+Check (C08_laziness_stack : forall n k Ts o pos a,
+  supported o -> container_ok k ->
+  is_probe (run_stack n (plug k pos AProbe) Ts o) = false ->
+  res_sim (run_stack n (plug k pos AProbe) Ts o) (run_stack n (plug k pos a) Ts o)).
